@@ -95,3 +95,11 @@ void h_push(void) {
   VASSERT(G.linked && G.tail_set, "H: push terminates its node, links it behind the tail, then moves the tail");
   VCANARY("push can return");
 }
+/* init: from ANY memory content the queue starts empty: head (stamp 0) and tail on one zeroed dummy node */
+void h_init(void) {
+  static dist_fifo_t X __attribute__((aligned(16))); memset(&X, (int)verif_u64(), sizeof(X));
+  int r = dist_fifo_init(&X);
+  if (r) VASSERT(X.head.pointer.counter == 0 && X.head.pointer.node != 0 && X.head.pointer.node == X.tail && X.tail->next == 0, "H: C20 dist fifo init: empty (one dummy node, unlinked), stamp 0, whatever the memory held");
+  else VASSERT(X.tail == 0, "H: C20 a failed dist fifo init leaves no node behind");
+  VCANARY("dist fifo init can return");
+}
